@@ -41,6 +41,13 @@ M = {
       "\tfirst := map[string]bool{}\n\tuniq := []*kledger.PureData{}\n\tfor _, v := range pd {\n\t\tk := string(makeRawKey(v.GetBucket(), v.GetKey()))\n\t\tif !first[k] {\n\t\t\tfirst[k] = true\n\t\t\tuniq = append(uniq, v)\n\t\t}\n\t}\n\tpd = uniq\n\tif len(pd) != len(vpd) {\n\t\treturn false\n\t}\n\tpds := newPdSlice(pd)")],
  "B8_equal_declared_deduped_last_wins(harmless)": [(DB, "\tif len(pd) != len(vpd) {\n\t\treturn false\n\t}\n\tpds := newPdSlice(pd)",
       "\tlast := map[string]int{}\n\tfor i, v := range pd {\n\t\tlast[string(makeRawKey(v.GetBucket(), v.GetKey()))] = i\n\t}\n\tuniq := []*kledger.PureData{}\n\tfor i, v := range pd {\n\t\tif last[string(makeRawKey(v.GetBucket(), v.GetKey()))] == i {\n\t\t\tuniq = append(uniq, v)\n\t\t}\n\t}\n\tpd = uniq\n\tif len(pd) != len(vpd) {\n\t\treturn false\n\t}\n\tpds := newPdSlice(pd)")],
+ "E1_equal_ignores_bucket": [(DB, "func equal(pd, vpd *kledger.PureData) bool {\n\trawKeyI := makeRawKey(pd.GetBucket(), pd.GetKey())\n\trawKeyJ := makeRawKey(vpd.GetBucket(), vpd.GetKey())",
+                                  "func equal(pd, vpd *kledger.PureData) bool {\n\trawKeyI := pd.GetKey()\n\trawKeyJ := vpd.GetKey()"),
+                             (DB, "\trawKeyI := makeRawKey(pds[i].GetBucket(), pds[i].GetKey())\n\trawKeyJ := makeRawKey(pds[j].GetBucket(), pds[j].GetKey())",
+                                  "\trawKeyI := pds[i].GetKey()\n\trawKeyJ := pds[j].GetKey()")],
+ "E2_equal_compares_value_lengths": [(DB, "\treturn bytes.Equal(pd.GetValue(), vpd.GetValue())\n}", "\treturn len(pd.GetValue()) == len(vpd.GetValue())\n}")],
+ "E3_inputs_of_a_paying_contract_account_need_no_signature": [(TV, "\t\tutxoKey := utxo.GenUtxoKey(addr, txid, offset)\n\t\tconUtxoInputsMap[utxoKey] = true\n", "\t\tconUtxoInputsMap[string(addr)] = true\n\t\t_, _ = txid, offset\n"),
+                             (TV, "\t\tutxoKey := utxo.GenUtxoKey(addr, txid, offset)\n\t\tif conUtxoInputsMap[utxoKey] {", "\t\t_, _ = txid, offset\n\t\tif conUtxoInputsMap[string(addr)] {")],
  "C1_contract_outputs_compared_as_set": [(TV, "\t\toutputs[outKey(out)]--\n", "")],
  "C2_contract_outputs_compared_without_amount": [(TV, "return fmt.Sprintf(\"%s\\x00%s\\x00%d\", out.GetToAddr(), new(big.Int).SetBytes(out.GetAmount()).String(), out.GetFrozenHeight())",
                                                       "return fmt.Sprintf(\"%s\\x00%d\", out.GetToAddr(), out.GetFrozenHeight())")],
